@@ -182,6 +182,11 @@ class _Softmax(OpDef):
                 out.append({"a": L(s), "dim": d, "via": "F"})
         out.append({"a": [2, 2], "dim": 1, "via": "M"})
         out.append({"a": [2, 2], "dim": 0, "via": "M"})
+        # rank 3 and 4 with the softmax dim among the leading ones (where "move the axis last and back" is not its own inverse)
+        # (few groups: every group of logits multiplies the number of max-selection paths)
+        out.append({"a": [2, 1, 2], "dim": 0, "via": "F"})
+        out.append({"a": [2, 2, 2], "dim": -3, "via": "M"})
+        out.append({"a": [1, 2, 1, 2], "dim": 1, "via": "F"})
         return out
 
     def illegal_configs(self, tier):
@@ -226,7 +231,7 @@ RED = ["mean", "sum", "none"]
 
 
 def _reduce_loss(o, red):
-    if red == "none":
+    if red == "none" or red is None:
         return o
     tot = ssum(o.reshape(-1))
     if red == "sum":
@@ -255,6 +260,7 @@ class _PairLoss(OpDef):
             out.append({"shape": L(s), "via": "F"})
             for red in RED:
                 out.append({"shape": L(s), "via": "M", "red": red})
+        out.append({"shape": [3], "via": "M", "red": None})      # None is documented as "no reduction", like 'none'
         return out
 
     def smooth_at_zero(self, args):
@@ -371,6 +377,7 @@ class _ClassLoss(OpDef):
                 out.append({"n": n, "c": c, "labels": list(lab), "via": "F"})
             for red in RED:
                 out.append({"n": n, "c": c, "labels": list(labs[-1]), "via": "M", "red": red})
+        out.append({"n": 2, "c": 2, "labels": [1, 0], "via": "M", "red": None})      # None = no reduction
         return out
 
     def illegal_configs(self, tier):
@@ -1218,7 +1225,7 @@ class BatchNormLayer(OpDef):
 @reg
 class Dropout(OpDef):
     name = "dropout"
-    props = ("C02", "C06", "C11")
+    props = ("C02", "C06", "C10", "C11")
 
     def configs(self, tier):
         out = []
@@ -1226,13 +1233,14 @@ class Dropout(OpDef):
             for p in (0.25, 0.5, 0.0):
                 out.append({"a": L(s), "p": p, "training": True})
             out.append({"a": L(s), "p": 0.5, "training": False})
+        out.append({"a": [2], "p": 0.25, "training": True, "np": True})     # p as a NumPy float64 scalar (np.linspace, a config array)
         return out
 
     def inputs(self, args):
         return [Inp("a", args["a"])]
 
     def forward(self, args, ts, extra):
-        m = NN().Dropout(args["p"])
+        m = NN().Dropout(np.float64(args["p"]) if args.get("np") else args["p"])
         if not args["training"]:
             m.eval()
         extra["module"] = m
